@@ -129,6 +129,7 @@ type chanState struct {
 	nsend   int
 	site    string
 	ticker  bool // a ticker's channel: the tick is there again after every receive
+	timer   bool // the channel of a timer or ticker: a tick nobody took is no leftover of the pipeline
 }
 
 // Event is one scheduling step: goroutine G executed its pending operation.
@@ -367,7 +368,9 @@ func Run(body func(), opt Options) *Result {
 	res := s.res
 	res.Goroutines = len(s.gs)
 	for _, cs := range s.chans {
-		res.Buffered += len(cs.buf)
+		if !cs.timer {
+			res.Buffered += len(cs.buf)
+		}
 	}
 	for _, g := range s.gs {
 		if g.state == gBlocked && !res.Aborted && !res.Cut {
